@@ -5,7 +5,7 @@ needs_release = False
 rule = ("for each of the 22 indicators and each period in the tier's list (quick: 1..16, 31..33, 63, 64; thorough: 1..64 "
         "plus sampled up to 4096) one case of >= 3*period+3 feeding ops mixing ordinary values with injected NaN, +-inf, +-f64::MAX, "
         "subnormals, signed zeros and inconsistent bars, with reset / clone / serde / Display+Debug probes at random "
-        "positions; a case is non-trivial when it is distinct and fed at least 3*period+3 inputs (every cursor state reached)")
+        "positions; plus, on the implementation only, 20000 calls at period 3 (one reset) and 5200 calls at period 1500 per indicator; a case is non-trivial when it is distinct and fed at least 3*period+3 inputs (every cursor state reached)")
 assumptions = ["debug build: overflow checks and debug assertions on (harness dev profile); thorough tier also runs a release build"]
 
 
@@ -66,6 +66,20 @@ def gen_cases(ctx):
         feeds = [base[i % 97] for i in range(n_feed)]
         cases.append(Case("%s_big%d" % (ind, p), [new_op(0, ind, pr)] + feeds, dump=(),
                           meta={"ind": ind, "period": p, "n_feed": n_feed, "harness_only": True}))
+    # long runs on the implementation only: 20 000 calls at period 3 and 5 200 calls at period 1 500 (maintenance code that runs every
+    # 2^10 .. 2^14 calls, before and after the window is full), resets included
+    for ind in ALL:
+        if nper(ind) == 0:
+            continue
+        for p, n_feed in ((3, 20000), (1500, 5200)):
+            k = nper(ind)
+            pr = (p, 3 if k >= 2 else 0, 2 if k >= 3 else 0, 2.0 if ind in HAS_MULT else 0.0)
+            base = feed(r, ind, 97, specials=0.0, p=7)
+            feeds = [base[i % 97] for i in range(n_feed)]
+            if p == 3:
+                feeds.insert(9000, ("r", 0))
+            cases.append(Case("%s_longrun_p%d" % (ind, p), [new_op(0, ind, pr)] + feeds, dump=(),
+                              meta={"ind": ind, "period": p, "n_feed": n_feed, "harness_only": True}))
     # monotone ramps with decimal steps (sums of rounded steps against one rounded difference: assertions that hold over the reals
     # but not in binary64 fire there)
     for ind in ALL:
